@@ -180,4 +180,34 @@ CORPUS = [
     M("m-imu-skip-small-dt", EST, "        if dt <= 0:\n            return\n", "        if dt <= self.time_eps:\n            return\n", ["C12"], "IMU samples with 0 < dt <= 1 ms are dropped"),
     B("b26-imu-skip-small-dt-c20", EST, "        if dt <= 0:\n            return\n", "        if dt <= self.time_eps:\n            return\n", ["C20"],
       "the same edit is benign for C20: the step handed to predict is still positive (an earlier version of the rule raised a false alarm here)"),
+    # ---- round 5: benign twins of the rules added after the fifth seeded round, and the mutants they answer
+    B("b27-rate-gate-helper-method", EST, "    def mag_callback(self, msg):\n        t = msg.data[\"time\"]\n        self.last_mag = msg  # must always set, since used for init\n\n        if not self.initialized or t - self.t_last_mag < (\n            self.dt_min_mag.get() - self.time_eps\n        ):\n            return\n",
+      "    def period_elapsed(self, t, t_last, dt_min):\n        return t - t_last >= (dt_min.get() - self.time_eps)\n\n    def mag_callback(self, msg):\n        t = msg.data[\"time\"]\n        self.last_mag = msg  # must always set, since used for init\n\n        if not self.initialized or not self.period_elapsed(t, self.t_last_mag, self.dt_min_mag):\n            return\n", ["C20", "C12"],
+      "the rate gate moved into a helper method with the right arguments"),
+    B("b28-integrator-clamp-vector-if-else", RDD2, "    i1 = saturatem(i0 + e1 * dt, -i_max, i_max)\n", "    i_raw = i0 + e1 * dt\n    i1 = ca.if_else(i_raw > i_max, i_max, ca.if_else(i_raw < -i_max, -i_max, i_raw))\n", ["C15", "C17"],
+      "element-wise if_else on vectors is what CasADi does for SX"),
+    B("b29-codegen-clean-stale-before-loop", CG, "    for name, eq in eqs.items():\n        filename = \"{:s}.c\".format(name)\n",
+      "    for old in pathlib.Path(dest_dir).glob(\"*.[ch]\"):\n        old.unlink()\n    for name, eq in eqs.items():\n        filename = \"{:s}.c\".format(name)\n", ["C09"],
+      "stale sources removed BEFORE anything is generated: every generated file survives"),
+    B("b30-fromquat-sign-select", SO3, "        q = ca.if_else(arg.param[0] < 0, -arg.param, arg.param)\n        den = 1 + q[0]", "        s = ca.if_else(arg.param[0] < 0, -1, 1)\n        q = s * arg.param\n        den = 1 + q[0]", ["C07", "C03", "C01"],
+      "hemisphere flip through a +-1 factor that is +1 at q0 = 0"),
+    B("b31-dp-mul-copy-then-extend", DP, "        return LieGroupDirectProduct(groups=self.groups + [other])", "        groups = list(self.groups)\n        groups += [other]\n        return LieGroupDirectProduct(groups=groups)", ["C01", "C02", "C03"],
+      "in-place extension of a COPY of the factor list"),
+    B("b32-bezier7-mtimes", BEZ, "    A_inv = ca.inv(A)\n    P_sol = (A_inv @ b).T\n\n    functions = [\n        ca.Function(\n            \"bezier7_solve\"", "    P_sol = ca.mtimes(ca.inv(A), b).T\n\n    functions = [\n        ca.Function(\n            \"bezier7_solve\"", ["C18"]),
+    B("b33-ground-damping-explicit-rotation", QUAD, "        -1000 * position_op_w[2] * zAxis - 1000 * velocity_w_p_w,", "        -1000 * position_op_w[2] * zAxis - 1000 * (q_wb @ velocity_w_p_b),", ["C16", "C17"]),
+    B("b34-const-int-test-direct", SYM, "        if f_num - int_num == 0:", "        if f_num == int_num:", ["C19", "C06"]),
+    B("b35-stamp-dedent-c20-holds", EST, "            self.msg_est_status.data[\"cpu_accel\"] = cpu_accel\n            self.t_last_accel = t\n", "            self.msg_est_status.data[\"cpu_accel\"] = cpu_accel\n        self.t_last_accel = t\n", ["C20"],
+      "time stamp taken on every IMU message: corrections are then at least a minimum period apart, so C20's clause holds (C12's does not: m-stamp-dedent)"),
+    M("m-stamp-dedent", EST, "            self.msg_est_status.data[\"cpu_accel\"] = cpu_accel\n            self.t_last_accel = t\n", "            self.msg_est_status.data[\"cpu_accel\"] = cpu_accel\n        self.t_last_accel = t\n", ["C12"]),
+    M("m-mag-gate-accel-period", EST, "            self.dt_min_mag.get() - self.time_eps\n        ):\n            return\n", "            self.dt_min_accel.get() - self.time_eps\n        ):\n            return\n", ["C20"]),
+    M("m-quat-inverse-sign", SO3, "return self.elem(param=ca.vertcat(q[0], -q[1], -q[2], -q[3]))", "return self.elem(param=ca.sign(q[0]) * ca.vertcat(q[0], -q[1], -q[2], -q[3]))", ["C01"], "sign(0) = 0: half turns have no inverse"),
+    M("m-dp-mul-inplace", DP, "        return LieGroupDirectProduct(groups=self.groups + [other])", "        groups = self.groups\n        groups += [other]\n        return LieGroupDirectProduct(groups=groups)", ["C01"]),
+    M("m-mrp-product-cross-factor", SO3, "- 2 * ca.cross(b, a)) / den", "- ca.cross(b, a)) / den", ["C01", "C04"]),
+    M("m-calcN-lookalike-key", SE23, 'C3 = SQUARED_SERIES["(x^2/2 + cos(x) - 1)/x^4"](theta_sq)', 'C3 = SQUARED_SERIES["(2 - 2 cos(x) - x sin(x))/(2 x^4))"](theta_sq)', ["C08", "C06"]),
+    M("m-ground-damping-body-velocity", QUAD, "        -1000 * position_op_w[2] * zAxis - 1000 * velocity_w_p_w,", "        -1000 * position_op_w[2] * zAxis - 1000 * velocity_w_p_b,", ["C16", "C17"]),
+    M("m-codegen-unlink-in-loop", CG, "        dest_dir.mkdir(exist_ok=True)\n", "        dest_dir.mkdir(exist_ok=True)\n        for old in dest_dir.glob(\"*.[ch]\"):\n            old.unlink()\n", ["C09"]),
+    M("m-yB-guard-on-thrust-norm", LOGL, "    yB = ca.if_else(nyB > 1e-3, yB / nyB, xW)", "    yB = ca.if_else(nT > 1e-3, yB / nyB, xW)", ["C14"]),
+    M("m-fromquat-sign-product", SO3, "        q = ca.if_else(arg.param[0] < 0, -arg.param, arg.param)\n        den = 1 + q[0]", "        q = ca.sign(arg.param[0]) * arg.param\n        den = 1 + q[0]", ["C07"]),
+    M("m-integrator-freeze", RDD2, "    i1 = saturatem(i0 + e1 * dt, -i_max, i_max)\n", "    i1 = i0 + e1 * dt\n    i1 = ca.if_else(ca.fabs(i1) > i_max, i0, i1)\n", ["C15"]),
+    B("b36-yB-guard-complement", LOGL, "    yB = ca.if_else(nyB > 1e-3, yB / nyB, xW)", "    yB = ca.if_else(nyB <= 1e-3, xW, yB / nyB)", ["C14", "C17"], "the same guard written as its complement"),
 ]
